@@ -182,7 +182,8 @@ def judge(run, prop, strategy, kind, scen, traces, claimed):
             run.cov["rejected_for_unclaimed_clause"] = run.cov.get("rejected_for_unclaimed_clause", 0) + 1
 
 
-def generic(prop, tier, scens, claimed, rule, sim_len=12, reads_only=False, strategies=("serialized", "memory")):
+def generic(prop, tier, scens, claimed, rule, sim_len=12, reads_only=False, strategies=("serialized", "memory"),
+            mechanism=None):
     run = common.Run(prop, tier)
     run.cov["rule"] = rule
     run.assumptions += [
@@ -212,6 +213,8 @@ def generic(prop, tier, scens, claimed, rule, sim_len=12, reads_only=False, stra
                     run.sample({"strategy": strategy, "kind": kind, "scen": scen, "inputs": hs[len(hs) // 2][:14]})
                 traces = execute(run, strategy, kind, scen, hs, attr_too=not quick or kind == "d")
                 judge(run, prop, strategy, kind, scen, traces, claimed)
+    if mechanism:
+        buffer_mechanism(run, prop, tier, mechanism)
     return run.finish()
 
 
@@ -231,7 +234,9 @@ def check_C06(tier):
     return generic("C06", tier, ("shared",), ("ret", "files", "w", "err"),
                    "as C05 with two objects bound to one file in a common buffered state (one backend-wide "
                    "context or per-object contexts), all assignments of reads/writes to the objects as generated "
-                   "by TLC; the flush must keep every write")
+                   "by TLC; the flush must keep every write; Buffer.tla (the mechanism, Level 2) is model-checked for "
+                   "both strategies and the witness of every repaired defect (deviation flag) is replayed",
+                   mechanism=(("serialized", "shared"), ("memory", "shared")))
 
 
 def check_C07(tier):
@@ -245,3 +250,96 @@ def check_C15(tier):
     return generic("C15", tier, ("two", "one"), ("size", "cap"),
                    "reported buffer size and capacity after every step compared with BufContract (sum of encoded "
                    "bytes / number of modified files; within capacity; 0 outside contexts; capacity restored)")
+
+
+# ------------------------------------------------------------------ Buffer.tla (Level 2 mechanism)
+BUF_PROPS = dict(properties=["C05_Transparent", "C06_FlushWrites", "C07_NoSilentOverwrite", "C17_ReadOnlyNeverWritten"],
+                 invariants=["C06_BufferHoldsGold", "C15_EmptyOutside", "C15_WithinCapacity", "C15_CapacityRestored"])
+BUF_FLAGS = ("Dev_SerializedOwnData", "Dev_MemFlushOwnData", "Dev_MemStoreNotFollow", "Dev_CapNotRestoredOnError",
+             "Dev_LoseRegOnError")
+# flag -> (strategy, scenario) in which it has a short witness
+BUF_WITNESS = {"Dev_SerializedOwnData": ("serialized", "shared"), "Dev_MemFlushOwnData": ("memory", "shared"),
+               "Dev_MemStoreNotFollow": ("memory", "one"), "Dev_CapNotRestoredOnError": ("serialized", "one")}
+
+
+def _buf_cfg(strategy, scen, maxhist, flags=(), keys='{"a", "b"}', only=None):
+    c = {"Strategy": f'"{strategy}"', "Scen": f'"{scen}"', "MaxHist": str(maxhist), "Files": "<- MCFiles",
+         "Objs": "<- MCObjs", "FileOf": "<- MCFileOf", "Keys": keys, "Caps": "<- MCCaps", "BigCap": "1000",
+         "MaxNest": "2"}
+    for f in BUF_FLAGS:
+        c[f] = "TRUE" if f in flags else "FALSE"
+    props = BUF_PROPS
+    if only:
+        props = dict(properties=[p for p in BUF_PROPS["properties"] if p in only],
+                     invariants=[p for p in BUF_PROPS["invariants"] if p in only])
+    return tlc.cfg_text(constants=c, constraints=["Bounded"], view="bview", **props)
+
+
+# flag -> (property it violates, steps of the shortest witness)
+BUF_WITNESS_PROP = {"Dev_SerializedOwnData": ("C06_FlushWrites", 4), "Dev_MemFlushOwnData": ("C06_FlushWrites", 4),
+                    "Dev_MemStoreNotFollow": ("C06_BufferHoldsGold", 3), "Dev_CapNotRestoredOnError": ("C15_CapacityRestored", 6)}
+
+
+def _witness_inputs(hist, strategy):
+    """Buffer.tla history -> inputs for bufrun (dict kind)."""
+    capmap = {0: 0, 6: 12, 1: 1, 1000: val.NONE, 99: val.NONE}
+    init = hist[0]["disk"]
+    docs = {f: val.from_py({k: 1 for k in (d["doc"].get("__set__", []) if isinstance(d["doc"], dict) else [])}) for f, d in init.items()}
+    out = [{"a": "init", "docs": docs, "ex": {f: True for f in docs}}]
+    for h in hist[1:]:
+        a = h["a"]
+        if a == "op":
+            k = h["k"]
+            op = {"add": {"op": "setitem", "k": k, "x": {"t": "i1"}}, "del": {"op": "pop", "k": k, "y": {"t": "n"}},
+                  "clear": {"op": "clear"}, "read": {"op": "call"}}[h["kind"]]
+            out.append({"a": "op", "o": h["o"], "op": op})
+        elif a == "enterO":
+            out.append({"a": "enterO", "o": h["o"]})
+        elif a == "enterB":
+            out.append({"a": "enterB", "c": capmap.get(h["c"], val.NONE)})
+        elif a == "setcap":
+            out.append({"a": "setcap", "c": capmap.get(h["c"], 100000) if capmap.get(h["c"]) != val.NONE else 100000})
+        elif a == "exit":
+            out.append({"a": "exit"})
+        elif a == "ext":
+            out.append({"a": "ext", "r": h["r"], "v": val.from_py({k: 1 for k in h["s"].get("__set__", [])})})
+    return close_contexts(out)
+
+
+def buffer_mechanism(run, prop, tier, combos):
+    """Model-check Buffer.tla (repaired code = all deviation flags off) and replay the witness of every deviation
+    flag (= a defect that was repaired) on the real classes: TraceBuf must accept it on this tree."""
+    from . import tlaval
+    maxhist = 5 if tier == "quick" else 7
+    for (strategy, scen) in combos:
+        res = tlc.run("MC_Buffer", _buf_cfg(strategy, scen, maxhist), name=f"buffer-{strategy}-{scen}", timeout=3000)
+        if not res.ok:
+            run.machinery_error(f"Buffer.tla ({strategy}/{scen}, flags off) violates {res.violated}: {res.tail(6)}")
+            continue
+        run.add_tlc(res, f"Buffer.tla {strategy}/{scen} all deviation flags off, histories <= {maxhist}")
+    for flag, (strategy, scen) in BUF_WITNESS.items():
+        prop_, steps = BUF_WITNESS_PROP[flag]
+        res = tlc.run("MC_Buffer", _buf_cfg(strategy, scen, steps + 1, flags=(flag,), keys='{"a"}', only=(prop_,)),
+                      name=f"buffer-{flag}", timeout=900)
+        if not res.violated:
+            run.machinery_error(f"deviation flag {flag} of Buffer.tla has no witness within 6 steps (vacuous flag)")
+            continue
+        hist = tlaval.last_state_var(res.trace_text(), "hist")
+        run.cov.setdefault("deviation_witnesses", {})[flag] = {"violates": res.violated, "steps": len(hist or []) - 1}
+        if not hist:
+            run.machinery_error(f"could not read the witness of {flag}")
+            continue
+        inputs = _witness_inputs(hist, strategy)
+        traces = execute(run, strategy, "d", scen, [inputs], attr_too=True)
+        best = validate(run, strategy, "d", scen, traces, tag=f"wit-{flag}")
+        if best is None:
+            continue
+        for t, b in zip(traces, best):
+            run.cov["traces_validated_against_impl"] += 1
+            if b < len(t["ev"]) + 1:
+                ev = t["ev"][b - 1] if 0 < b <= len(t["ev"]) else None
+                run.violation({"cls": t["cls"], "scen": scen, "strategy": strategy, "kind": "d", "failing_clause": "witness",
+                               "op": flag, "event_index": b, "input": ev["in"] if ev else None,
+                               "observed": {k: ev[k] for k in ("ret", "errs", "kind", "size", "cap", "files")} if ev else None,
+                               "inputs": [e["in"] for e in t["ev"][:b]], "init": t["init"], "aborted": t.get("aborted"),
+                               "detail": f"the witness of repaired defect {flag} is rejected again"})
